@@ -6,6 +6,7 @@ Mirrors `metador_core/util/diff.py`:
 * `DiffNode.compare` (l. 108–176)  ↦ `addT`/`remT`/`cmpT`/`compare`
 * `DiffNode.nodes` (l. 78–93)      ↦ `nodes`
 * `DiffNode.status` (l. 95–105)    ↦ `Rec.status`
+* `DiffNode._type` (l. 54–62)      ↦ `objType`
 * `DiffNode.children`, `DirDiff.get` (l. 71–76, 207–223) ↦ `children`, `getFrom`, `get`
 
 A `DirHashsums` value (nested dict; `str` = file hashsum or `"symlink:<target>"`, `dict` =
@@ -190,13 +191,31 @@ inductive Status where
   | added | removed | modified | invalid
 deriving DecidableEq, Repr
 
-/-- `DiffNode.status()` -/
+/-- `DiffNode.status()` (l. 95–105): `prev is None` is tested first, so a node without either
+entry (never built by `compare`) counts as added; `Status.invalid` is not produced by the code
+(the constructor only remains for the driver's output table). Tied to the source by translation
+(`Bridge/Diff.lean`, `gen_status`). -/
 def Rec.status (r : Rec) : Status :=
   match r.prev, r.curr with
-  | none, none => .invalid
-  | none, some _ => .added
+  | none, _ => .added
   | some _, none => .removed
   | some _, some _ => .modified
+
+/-- `DiffNode.ObjType` -/
+inductive ObjType where
+  | directory | file | symlink
+deriving DecidableEq, Repr
+
+/-- `DiffNode._type(entity)` (l. 54–62): a dict is a directory; a non-empty string is a symlink
+iff it starts with `symlink:` and a file otherwise; `None` and the empty string have no type.
+Tied to the source by translation (`Bridge/Diff.lean`, `gen_type`). -/
+def objType : Option DirTree → Option ObjType
+  | none => none
+  | some (.dir _) => some .directory
+  | some (.file s) =>
+    if s = "" then none
+    else if "symlink:".toList.isPrefixOf s.toList then some .symlink
+    else some .file
 
 mutual
 /-- `DiffNode.nodes()`: removed children, modified children, the node itself, added children. -/
